@@ -87,6 +87,7 @@ def run_unit(arg):
         return run_frame_unit(fname)
     shard = arg[5] if len(arg) > 5 else None
     carve = arg[6] if len(arg) > 6 else None
+    only_prop = arg[7] if len(arg) > 7 else None
     t0 = time.time()
     from pyvc import extract
     from pyvc.contract import verify_function
@@ -94,16 +95,14 @@ def run_unit(arg):
     try:
         from pyvc import logic
         logic.reset_names()
+        for k in logic.CVC5:
+            logic.CVC5[k] = 0
         lib = get_lib(libname)
         prof = lib.profile(cls)
         exf = extract.load(prof["file"])
         out["file"] = prof["file"]
         out["sha"] = exf.sha
         out["repo_class"] = prof["cls"]
-        if exf.unsupported_prints:
-            out["unsupported"] = "call inside a dropped print is not on the whitelist: %r" % (exf.unsupported_prints,)
-            out["obligations"] = []
-            return out
         con = lib.contracts[cls][fname]
         src = getattr(con, "source", None)
         if src:
@@ -113,8 +112,13 @@ def run_unit(arg):
             node = exf.function(src[1], fname)
         else:
             node = exf.function(prof["cls"], fname)
+        bad_prints = [x for x in exf.unsupported_prints if node.lineno <= x[0] <= getattr(node, "end_lineno", 10 ** 9)]
+        if bad_prints:
+            out["unsupported"] = "call inside a dropped print of this function is not on the whitelist: %r" % (bad_prints,)
+            out["obligations"] = []
+            return out
         r = verify_function(lib, cls, fname, node, con, timeout_ms=timeout_ms, want_models=want_models, shard=shard,
-                            carve=carve)
+                            carve=carve, only_prop=only_prop)
         out["shard"] = list(shard) if shard else None
         out["unsupported"] = r.unsupported
         out["obligations"] = r.obligations
@@ -131,4 +135,9 @@ def run_unit(arg):
         out["crash"] = "%s: %s\n%s" % (type(e).__name__, e, traceback.format_exc()[-1500:])
         out["obligations"] = []
     out["seconds"] = round(time.time() - t0, 3)
+    try:
+        from pyvc import logic
+        out["cvc5"] = dict(logic.CVC5)
+    except Exception:
+        pass
     return out
